@@ -2329,14 +2329,20 @@ def preprocess_file(
 
     def expand_func_macro(def_name: str, def_value: tuple[str, str]):
         def_args, sub = def_value
-        def_args = def_args.split(",")
+        # (a macro without parameters, `F()`, has an empty list, not one empty name)
+        def_args = def_args.split(",") if def_args.strip() else []
         # An argument ends at the first comma or closing parenthesis that is not
         # inside parentheses of its own (nested up to three levels)
         nested = r"[^()]"
         for _ in range(3):
             nested = rf"(?:[^()]|\({nested}*\))"
         arg_pat = rf"((?:[^(),]|\({nested}*\))*)"
-        regex = re.compile(rf"\b{def_name}\s*\({','.join([arg_pat]*len(def_args))}\)")
+        if def_args:
+            regex = re.compile(
+                rf"\b{def_name}\s*\({','.join([arg_pat]*len(def_args))}\)"
+            )
+        else:
+            regex = re.compile(rf"\b{def_name}\s*\(\s*\)")
         # The body becomes a replacement template: keep its backslashes literal
         sub = sub.replace("\\", "\\\\")
         for i, arg in enumerate(def_args, start=1):
@@ -2558,35 +2564,44 @@ def preprocess_file(
                     "%s !!! Could not locate include file (%d)", line.strip(), i + 1
                 )
 
-        # Substitute (if any) read in preprocessor macros
-        for def_tmp, value in defs_tmp.items():
-            # Skip if the line does not contain the macro at all. This is supposed to
-            # spare the expensive regex-substitution in case we do not need it at all
-            if def_tmp not in line:
-                continue
-            def_regex = def_regexes.get(def_tmp)
-            if def_regex is None:
-                if isinstance(value, tuple):
-                    def_regex = expand_func_macro(def_tmp, value)
+        # Substitute (if any) read in preprocessor macros. The result is scanned
+        # again: a body may mention macros that come earlier in the table.
+        for rescan in range(10):
+            line_before = line
+            for def_tmp, value in defs_tmp.items():
+                # Skip if the line does not contain the macro at all. This is supposed
+                # to spare the expensive regex-substitution in case we do not need it
+                if def_tmp not in line:
+                    continue
+                # (a macro that mentions itself is not expanded again)
+                body = value[1] if isinstance(value, tuple) else value
+                if rescan and re.search(rf"\b{def_tmp}\b", body):
+                    continue
+                def_regex = def_regexes.get(def_tmp)
+                if def_regex is None:
+                    if isinstance(value, tuple):
+                        def_regex = expand_func_macro(def_tmp, value)
+                    else:
+                        def_regex = re.compile(rf"\b{def_tmp}\b")
+                    def_regexes[def_tmp] = def_regex
+
+                if isinstance(def_regex, tuple):
+                    def_regex, value = def_regex
                 else:
-                    def_regex = re.compile(rf"\b{def_tmp}\b")
-                def_regexes[def_tmp] = def_regex
+                    # Insert the macro body verbatim (no template escapes)
+                    value = value.replace("\\", "\\\\")
 
-            if isinstance(def_regex, tuple):
-                def_regex, value = def_regex
-            else:
-                # Insert the macro body verbatim (no template escapes)
-                value = value.replace("\\", "\\\\")
-
-            line_new, nsubs = def_regex.subn(value, line)
-            if nsubs > 0:
-                log.debug(
-                    "%s !!! Macro sub(%d) '%s' -> '%s'",
-                    line.strip(),
-                    i + 1,
-                    def_tmp,
-                    value,
-                )
-                line = line_new
+                line_new, nsubs = def_regex.subn(value, line)
+                if nsubs > 0:
+                    log.debug(
+                        "%s !!! Macro sub(%d) '%s' -> '%s'",
+                        line.strip(),
+                        i + 1,
+                        def_tmp,
+                        value,
+                    )
+                    line = line_new
+            if line == line_before:
+                break
         output_file.append(line)
     return output_file, pp_skips, pp_defines, defs_tmp
